@@ -263,7 +263,9 @@ pub fn run_solver_case(case: &SolverCase) -> SolverCaseRun {
                         || match (va, vb) {
                             (Some(x), Some(y)) => {
                                 (x - y).abs()
-                                    > 2.0 * judge::TOL * x.abs().max(y.abs()).max(case.model.value_scale())
+                                    > 2.0 * judge::TOL
+                                        * (x - case.model.offset).abs().max((y - case.model.offset).abs()).max(case.model.value_scale())
+                                        + 2e-9 * case.model.offset.abs()
                             }
                             _ => false,
                         };
